@@ -26,6 +26,7 @@ func init() {
 	generators["c12"] = genC12
 	generators["c12accept"] = genC12accept
 	generators["c12slowstop"] = genC12slowstop
+	generators["c15timer"] = genC15timer
 	generators["c11accept"] = genC11accept
 	generators["c13"] = genC13
 	generators["c17"] = genC17
@@ -497,6 +498,25 @@ func genC12slowstop(g *Gen) {
 	s.op("sleep 700") // Stop reaches connWg.Wait while the connection is still in its OnClose
 	s.op("holdonclose 0")
 	s.emit(g)
+}
+
+// C15: Stop, from a goroutine armed beforehand (so that nothing the connection does later is
+// ordered before it by the harness), while a StartTLS-upgraded connection is open and idle
+func genC15timer(g *Gen) {
+	for _, n := range []int{1, 3} {
+		s := newScen("fixed:nopark=1")
+		s.op("run 1 1")
+		for c := 0; c < n; c++ {
+			s.op("connect")
+		}
+		s.op("stoptimer 900")
+		for c := 0; c < n; c++ {
+			s.send(c, s.req("starttls", "w", "hs"))
+			s.send(c, "hello")
+		}
+		s.op("stopwait")
+		s.emit(g)
+	}
 }
 
 // C12: orders of Stop relative to Run, held OnClose, held handlers
